@@ -235,6 +235,14 @@ func unpublishedAt(r *Run, f *ssa.Function, v ssa.Value, at ssa.Instruction, dep
 			return freshInfo{false, "loaded from memory of unknown provenance"}
 		case *ssa.Alloc, *ssa.MakeSlice:
 			return publishedBefore(r, f, v, v.(ssa.Instruction), at)
+		case *ssa.Extract:
+			// one result of a helper that returns several: '(newTable, copyOver) := m.nextTable(table, hint)'
+			if call, isCall := x.Tuple.(*ssa.Call); isCall {
+				if cal := core.Callee(call); cal != nil && cal.Blocks != nil && depth < 3 && freshReturningAt(r, cal, x.Index, depth) {
+					return publishedBefore(r, f, v, call, at)
+				}
+			}
+			return freshInfo{false, "result of a call that is not a fresh allocation"}
 		case *ssa.Call:
 			cal := core.Callee(x)
 			for _, mm := range r.M.Maps {
@@ -278,16 +286,23 @@ func unpublishedAt(r *Run, f *ssa.Function, v ssa.Value, at ssa.Instruction, dep
 
 // freshReturning: every return of callee yields an allocation made by that activation which is still
 // unpublished at the return.
-func freshReturning(r *Run, cal *ssa.Function, depth int) bool {
+func freshReturning(r *Run, cal *ssa.Function, depth int) bool { return freshReturningAt(r, cal, 0, depth) }
+
+// freshReturningAt: result #idx of every return of cal is an allocation of that activation, unpublished at the
+// return (a nil result - 'nothing built on this path' - is fine too).
+func freshReturningAt(r *Run, cal *ssa.Function, idx, depth int) bool {
 	n := 0
 	ok := true
 	core.Instrs(cal, func(in ssa.Instruction) {
 		ret, isRet := in.(*ssa.Return)
-		if !isRet || len(ret.Results) == 0 {
+		if !isRet || len(ret.Results) <= idx {
 			return
 		}
 		n++
-		v := core.StripConv(ret.Results[0])
+		v := core.StripConv(ret.Results[idx])
+		if core.IsNilConst(v) {
+			return
+		}
 		switch v.(type) {
 		case *ssa.Alloc, *ssa.MakeSlice, *ssa.Call, *ssa.Phi:
 			if fi := unpublishedAt(r, cal, v, ret, depth+1); !fi.OK {
